@@ -25,6 +25,7 @@ DEFAULTS = {
     'memLimitTest': 'isNotNone', 'fileLimitTest': 'isNotNone', 'dayCountKind': 'calendar', 'dayCountPlus': 1,
     'rateAlwaysCmp': 'ge', 'drawKeepCmp': 'le', 'fileAboveCmp': 'gt', 'windowStartCmp': 'le', 'windowEndCmp': 'le',
     'opOutputAlias': '_tape_recorder_operation', 'aboveLimitContent': 'above interception limit', 'defaultFileLimit': 500,
+    's3RateAlwaysCmp': 'ge', 's3DrawKeepCmp': 'le',
     's3FullKey': 'tape_recorder_recordings/{key_prefix}full/{id}', 's3MetadataKey': 'tape_recorder_recordings/{key_prefix}metadata/{id}',
 }
 
@@ -226,6 +227,26 @@ def extract(repo):
         except Exception:
             pass
         put(name, test)
+    # -- s3_tape_cassette.py `_should_sample`: `ratio <op> 1`, `self._random.random() <op> ratio` ----------------------
+    srate, sdraw = None, None
+    try:
+        fn = find_func(s3, '_should_sample')
+        for n in ast.walk(fn):
+            c = single_cmp(n)
+            if not c:
+                continue
+            if is_name(c[0], 'ratio') and isinstance(c[2], ast.Constant) and c[2].value == 1:
+                srate = c[1]
+            elif is_name(c[2], 'ratio') and isinstance(c[0], ast.Constant) and c[0].value == 1:
+                srate = FLIP[c[1]]
+            elif isinstance(c[0], ast.Call) and is_name(c[2], 'ratio'):
+                sdraw = c[1]
+            elif isinstance(c[2], ast.Call) and is_name(c[0], 'ratio'):
+                sdraw = FLIP[c[1]]
+    except Exception:
+        pass
+    put('s3RateAlwaysCmp', srate)
+    put('s3DrawKeepCmp', sdraw)
     put('s3FullKey', fk if isinstance(fk, str) else None)
     put('s3MetadataKey', mk if isinstance(mk, str) else None)
     return atoms, notes
@@ -282,6 +303,9 @@ def aboveLimitContent : String := %s
 def aboveLimitContentBytes : List Nat := [%s]
 /-- default of `PLAYBACK_INTERCEPTED_FILE_SIZE_LIMIT` (MB) -/
 def defaultFileLimit : Nat := %d
+/-- s3_tape_cassette.py `_should_sample`: `ratio <op> 1` stores without a draw, else `self._random.random() <op> ratio` -/
+def s3RateAlwaysCmp : Cmp := .%s
+def s3DrawKeepCmp : Cmp := .%s
 /-- `S3TapeCassette.FULL_KEY` / `METADATA_KEY` -/
 def s3FullKey : String := %s
 def s3MetadataKey : String := %s
@@ -291,6 +315,7 @@ end PlaybackModel.Source
        atoms['memLimitTest'], atoms['fileLimitTest'], atoms['dayCountKind'], atoms['dayCountPlus'],
        lean_str(atoms['opOutputAlias']), lean_str(atoms['aboveLimitContent']),
        ', '.join(str(b) for b in atoms['aboveLimitContent'].encode('utf-8')), atoms['defaultFileLimit'],
+       atoms['s3RateAlwaysCmp'], atoms['s3DrawKeepCmp'],
        lean_str(atoms['s3FullKey']), lean_str(atoms['s3MetadataKey']))
 
 
